@@ -11,8 +11,16 @@ export OPENBLAS_NUM_THREADS=1
 if grep -q LIBSCIENTIFIC_VERIF "$B/b/build.ninja" "$B/b/CMakeCache.txt" 2>/dev/null; then echo "BASELINE-OFF: guard unexpectedly on"; exit 2; fi
 : > "$B/out.txt"
 cd "$B/b/src/tests" || exit 2
+# testmatrix "Test 53" seeds the generator with time(NULL) and aborts when one of 9 random integers in [-100,100] is 0
+# (~4 % of runs, on the pinned tree as well): a binary that exits non-zero is run again, up to three times in total,
+# and the OK lines of all attempts are pooled.
 for t in $(find . -maxdepth 1 -type f -executable -name 'test*' | sort); do
-  timeout 1500 "$t" >> "$B/out.txt" 2>&1 || echo "BASELINE-OFF: $t exited with $?" >> "$B/out.txt"
+  for attempt in 1 2 3; do
+    if timeout 1500 "$t" >> "$B/out.txt" 2>&1; then break; fi
+    rc=$?
+    [ "$attempt" = 3 ] && echo "BASELINE-OFF: $t exited with $rc" >> "$B/out.txt"
+    sleep 1
+  done
 done
 python3 - "$BASE" "$B/out.txt" <<'PY'
 import json, sys, re
